@@ -74,6 +74,8 @@ class ClosureHook:
         self._remember(prs)
         self.pre_dangling_refs = set()
         self.saves = 0
+        self.tmpdir = None
+        self.stream = None
         self.changed_since_save = False
         self.save_change_save = False
         if start_bytes is not None:
@@ -179,6 +181,32 @@ class ClosureHook:
             import re
             where = re.sub(r"\[\d+\]", "", d.split(":")[0]).replace(".slides.shapes", "shape").strip(".")
             raise Violation("C02:reopen-differs:%s" % where, "in-memory vs re-opened: %s" % d)
+        # the other ways of saving: over a path this history saved to before (spelled relative / absolute in turn),
+        # and once more into a stream that already holds an earlier save; what is re-opened from there is the same deck
+        import tempfile
+        if self.saves % 2:
+            if self.tmpdir is None:
+                self.tmpdir = tempfile.mkdtemp(prefix="verif-c02-")
+            path = os.path.join(self.tmpdir, "deck.pptx")
+            spelled = path if self.saves % 4 == 1 else os.path.relpath(path)
+            with sut("C02:save-to-path"):
+                it.prs.save(spelled)
+            with sut("C02:reopen-from-path"):
+                prs3 = Presentation(spelled)
+            how = "path saved to before (%s spelling)" % ("absolute" if spelled == path else "relative")
+        else:
+            if self.stream is None:
+                self.stream = io.BytesIO()
+            with sut("C02:save-to-used-stream"):
+                it.prs.save(self.stream)
+            with sut("C02:reopen-from-used-stream"):
+                prs3 = Presentation(io.BytesIO(self.stream.getvalue()))
+            how = "stream that held an earlier save"
+        with sut("C02:snapshot-reopened"):
+            s3 = S.snapshot(prs3)
+        d = S.diff(s1, s3)
+        if d:
+            raise Violation("C02:reopen-differs:other-save-form", "in-memory vs re-opened from a %s: %s" % (how, d))
 
 
 def renamed(data, how):
@@ -208,10 +236,45 @@ def renamed(data, how):
     return pkg.to_bytes()
 
 
+_MANY = []
+
+
+def _many_deck():
+    if _MANY:
+        return _MANY[0]
+    from pptx import Presentation
+    from pptx.chart.data import CategoryChartData
+    from pptx.enum.chart import XL_CHART_TYPE
+    from PIL import Image as PILImage
+    prs = Presentation()
+    for i in range(10):
+        sl = prs.slides.add_slide(prs.slide_layouts[6])
+        cd = CategoryChartData()
+        cd.categories = ["a", "b"]
+        cd.add_series("s%d" % i, (i, i + 1))
+        sl.shapes.add_chart(XL_CHART_TYPE.COLUMN_CLUSTERED, 0, 0, 3000000, 2000000, cd)
+        sl.notes_slide.notes_text_frame.text = "notes %d" % i
+        im = io.BytesIO()
+        PILImage.new("RGB", (2 + i, 3), (i * 20, 10, 200)).save(im, "PNG")
+        im.seek(0)
+        sl.shapes.add_picture(im, 0, 2000000)
+    buf = io.BytesIO()
+    prs.save(buf)
+    _MANY.append(buf.getvalue())
+    return _MANY[0]
+
+
 def make_start(start):
     """start = [kind, arg, rename] -> (Presentation, bytes or None)"""
     from pptx import Presentation
     kind, arg, ren = start
+    if kind == "many":
+        # ten slides, ten charts (and workbooks), ten notes slides, ten distinct pictures: the next part of each family
+        # is the eleventh (part numbers with two digits sort before "2" as text)
+        data = _many_deck()
+        if ren:
+            data = renamed(data, ren) or data
+        return Presentation(io.BytesIO(data)), data
     if kind in ("bare", "rich"):
         prs = Presentation()
         if kind == "rich" or ren:
@@ -244,7 +307,12 @@ def run_case(case, rec=None):
                 it.step(["save"])
     else:
         it.run(ops)
-    it.step(["save"])
+    try:
+        it.step(["save"])
+    finally:
+        if hook.tmpdir is not None:
+            import shutil
+            shutil.rmtree(hook.tmpdir, ignore_errors=True)
     if rec is not None:
         c = it.counts
         rejected = sum(v for k, v in c.items() if k.endswith(":rejected") or k.endswith(":crashed"))
@@ -275,7 +343,7 @@ def jobs(tier):
     decks = corpus_decks()
     js = []
     for i in range(16):
-        js.append({"shard": i, "n": 400 if tier == "thorough" else 150,
+        js.append({"shard": i, "n": 400 if tier == "thorough" else 100,
                    "decks": decks[i::16] if tier == "thorough" else decks[i::16][:2],
                    "max_ops": 60 if tier == "thorough" else 25, "save_every": tier == "thorough"})
     return js
@@ -285,7 +353,8 @@ def run_job(job, seed, tier, rec, known):
     from hypothesis import strategies as st
     ops = D.ops_strategy(job["max_ops"], WEIGHTS, min_ops=6)
     starts = [["bare", None, None], ["rich", None, None], ["rich", None, "gap"], ["rich", None, "rotate"], ["rich", None, "shift1"],
-              ["bare", None, "reverse"], ["rich", None, "shift100"], ["rich", None, "arrays"], ["rich", None, "arrays"]]
+              ["bare", None, "reverse"], ["rich", None, "shift100"], ["rich", None, "arrays"], ["rich", None, "arrays"],
+              ["many", None, None], ["many", None, None], ["many", None, "rotate"]]
     for d in job["decks"]:
         starts += [["corpus", d, None], ["corpus", d, "gap"], ["corpus", d, "rotate"], ["corpus", d, "arrays"], ["corpus", d, "shift1"]]
     strat = st.builds(lambda s, o, e: {"start": s, "ops": o, "save_every": e}, st.sampled_from(starts), ops,
